@@ -21,7 +21,7 @@ def shipped_names():
     global _NAMES
     if _NAMES is None:
         c = repo.mod("geodepy.constants")
-        _NAMES = sorted(n for n, v in vars(c).items() if type(v).__name__ == "Transformation")
+        _NAMES = sorted(n for n in dir(c) if not n.startswith("_") and isinstance(getattr(c, n, None), c.Transformation))
     return _NAMES
 
 
@@ -50,7 +50,8 @@ def make_trans(spec):
         p, rates = [np.float64(v) for v in p], [np.float64(v) for v in rates]
     elif pnum == "int":
         p, rates = [int(v) for v in p], [int(v) if abs(v) >= 1 else v for v in rates]     # truncated: stays inside the domain
-    return c.Transformation(spec.get("from", "A"), spec.get("to", "B"), ref, *p, *rates, tf_sd=sd)
+    # (parameters positionally as in the shipped tables, rates by name as the module's own convention asks)
+    return c.Transformation(spec.get("from", "A"), spec.get("to", "B"), ref, *p, **dict(zip(R7, rates)), tf_sd=sd)
 
 
 def spec_values(spec):
